@@ -1,6 +1,6 @@
 (* C42 — property theorems only.  Each is closed by `exact <lemma>` and followed by Print Assumptions. *)
 From Coq Require Import List NArith Bool Arith.
-From Verif.C42 Require Import Model Spec Proofs ProofsApply.
+From Verif.C42 Require Import Model Spec Proofs ProofsApply ProofsFinal ProofsIds Witness.
 Import ListNotations.
 Open Scope N_scope.
 
@@ -40,25 +40,107 @@ Theorem c42_completed_sync_is_desired : forall cfg sy d st v fF fB tr sy' d',
 Proof. exact completed_apply_is_desired. Qed.
 Print Assumptions c42_completed_sync_is_desired.
 
-(* Non-vacuity: a concrete history (service with node port, external and LB IP; endpoints change; an apply whose
-   writes fail from the 4th on; restart; shrink) runs in the model and passes through 13 states. *)
-Definition ex_s0 := Svc 0 174063617 80 6 30001 [587202561] [603979777] true false 0 false.
-Definition ex_e1 := Ep 167837953 8000 true false 3232235522.
-Definition ex_e2 := Ep 167837697 8000 true true 0.
-Example c42_example_history :
-  exists states sy' d',
-    run_history (Config [3232235521; 4294967295] false) new_syncer ([], [])
-      [ MApply [(ex_s0, [ex_e1; ex_e2])] [(0, [])] [] []
-          [WSetB (0,1) (167837953,8000); WSetB (0,0) (167837697,8000);
-           WSetF (FK 4294967295 30001 6) (FV 0 2 1 0 1); WSetF (FK 174063617 80 6) (FV 0 2 1 0 0);
-           WSetF (FK 603979777 80 6) (FV 0 2 1 0 1); WSetF (FK 587202561 80 6) (FV 0 2 1 0 0);
-           WSetF (FK 3232235521 30001 6) (FV 0 2 1 0 1)];
-        MApply [(ex_s0, [ex_e2])] [(0, [])] [FK 587202561 80 6] []
-          [WSetF (FK 174063617 80 6) (FV 0 1 1 0 0); WSetF (FK 3232235521 30001 6) (FV 0 1 1 0 1);
-           WSetF (FK 603979777 80 6) (FV 0 1 1 0 1); WSetF (FK 4294967295 30001 6) (FV 0 1 1 0 1)];
-        MRestart;
-        MApply [(ex_s0, [ex_e2])] [(0, [])] [] []
-          [WSetF (FK 587202561 80 6) (FV 0 1 1 0 0); WDelB (0,1)] ]
-    = Some (states, sy', d') /\ length states = 13%nat
-    /\ final_exactb [3232235521; 4294967295] [(ex_s0, [ex_e2])] (fst d') (snd d') = true.
-Proof. vm_compute. eexists _, _, _. split; [reflexivity|split; reflexivity]. Qed.
+(* FINAL EXACT, the part that holds for every history (partial: see the two items below).  After a completed sync,
+   for every schedule: every frontend in the map is a frontend of one of the applySvc units (a service's own
+   frontends: cluster IP, LB IPs, external IPs, node ports; or a per-remote-node node port) with that unit's id,
+   ready-endpoint count, local count and affinity; every such frontend is present; every backend entry lies inside
+   some unit's block (nothing stale); and, when distinct units have distinct ids, the i-th backend of a unit is its
+   i-th ready endpoint in the order "ready local ones, then ready remote ones".
+   Missing for the full statement: (a) NoDup (map u_id us) is NOT derivable for the pinned code
+   (c42_final_exact_refuted); it is proved for c_reset = true in c42_final_exact below; (b) the identification of the units' frontends with Spec.spec_frontends (kinds, policy flags) is
+   checked by the oracle final_exactb on every correspondence case and in the examples, not proved in general. *)
+Theorem c42_final_exact_partial : forall cfg sy d st v fF fB tr sy' d',
+  consistent (fst d) (snd d) -> exec_apply cfg sy d st v fF fB tr = Some (sy', d', false) ->
+  exists next us,
+    visit_all (sy_prev (if sy_synced sy then sy else startup (c_reset cfg) (c_npips cfg) sy (fst d) st))
+              (sy_next (if sy_synced sy then sy else startup (c_reset cfg) (c_npips cfg) sy (fst d) st)) st v = Some (next, us) /\
+    (forall k fv, lookup fkey_eqb (fst d') k = Some fv ->
+        exists u, In u us /\ In (k, fv) (unit_frontends (c_npips cfg) u)
+                  /\ fv_id fv = u_id u /\ fv_count fv = u_count u /\ fv_local fv = u_local u /\ fv_aff fv = s_sticky (u_svc u)) /\
+    (forall u k fv, In u us -> In (k, fv) (unit_frontends (c_npips cfg) u) -> lookup fkey_eqb (fst d') k <> None) /\
+    (forall id i a, lookup pair_eqb (snd d') (id, i) = Some a -> exists u, In u us /\ id = u_id u /\ i < u_count u) /\
+    (NoDup (map u_id us) ->
+       forall u i, In u us -> i < u_count u ->
+         exists e, nth_error (ready_local (u_eps u) ++ ready_remote (u_eps u)) (N.to_nat i) = Some e
+                   /\ lookup pair_eqb (snd d') (u_id u, i) = Some (ep_addr e)).
+Proof. exact final_exact_partial. Qed.
+Print Assumptions c42_final_exact_partial.
+
+(* FINAL EXACT FOR EVERY HISTORY, for a Syncer that empties prevSvcMap at every startup sync (c_reset = true, the
+   repaired tree): in every Syncer state reachable from a fresh Syncer by any history, distinct applySvc units get
+   distinct NAT ids (ids in prevSvcMap stay below nextSvcID and injective), hence after every completed sync every
+   unit's backend block is exactly its ready endpoints, local ones first, and nothing else is in the maps.
+   (Item (b) of c42_final_exact_partial is still checked, not proved.) *)
+Theorem c42_final_exact : forall cfg ops d0 states sy d st v fF fB tr sy' d',
+  c_reset cfg = true -> consistent (fst d0) (snd d0) ->
+  run_history cfg new_syncer d0 ops = Some (states, sy, d) ->
+  exec_apply cfg sy d st v fF fB tr = Some (sy', d', false) ->
+  exists next us,
+    visit_all (sy_prev (if sy_synced sy then sy else startup (c_reset cfg) (c_npips cfg) sy (fst d) st))
+              (sy_next (if sy_synced sy then sy else startup (c_reset cfg) (c_npips cfg) sy (fst d) st)) st v = Some (next, us) /\
+    NoDup (map u_id us) /\
+    (forall k fv, lookup fkey_eqb (fst d') k = Some fv ->
+        exists u, In u us /\ In (k, fv) (unit_frontends (c_npips cfg) u)
+                  /\ fv_id fv = u_id u /\ fv_count fv = u_count u /\ fv_local fv = u_local u /\ fv_aff fv = s_sticky (u_svc u)) /\
+    (forall u k fv, In u us -> In (k, fv) (unit_frontends (c_npips cfg) u) -> lookup fkey_eqb (fst d') k <> None) /\
+    (forall id i a, lookup pair_eqb (snd d') (id, i) = Some a -> exists u, In u us /\ id = u_id u /\ i < u_count u) /\
+    (forall u i, In u us -> i < u_count u ->
+         exists e, nth_error (ready_local (u_eps u) ++ ready_remote (u_eps u)) (N.to_nat i) = Some e
+                   /\ lookup pair_eqb (snd d') (u_id u, i) = Some (ep_addr e)).
+Proof. exact final_exact_reset. Qed.
+Print Assumptions c42_final_exact.
+
+(* the Syncer-state invariant behind it: one Apply keeps it *)
+Theorem c42_ids_stay_distinct : forall cfg sy d st v fF fB tr sy' d' err,
+  c_reset cfg = true -> sy_ok sy -> exec_apply cfg sy d st v fF fB tr = Some (sy', d', err) ->
+  sy_ok sy' /\
+  exists next us,
+    visit_all (sy_prev (if sy_synced sy then sy else startup (c_reset cfg) (c_npips cfg) sy (fst d) st))
+              (sy_next (if sy_synced sy then sy else startup (c_reset cfg) (c_npips cfg) sy (fst d) st)) st v = Some (next, us)
+    /\ NoDup (map u_id us).
+Proof. exact exec_apply_ids. Qed.
+Print Assumptions c42_ids_stay_distinct.
+
+(* the order used for a unit's backends lists exactly the ready endpoints (as a multiset), local ones first *)
+Theorem c42_ready_local_first : forall eps,
+  Permutation.Permutation (ordered eps) (filter e_ready eps)
+  /\ ordered eps = ready_local eps ++ ready_remote eps
+  /\ Forall (fun e => e_local e = true /\ e_ready e = true) (ready_local eps)
+  /\ Forall (fun e => e_local e = false /\ e_ready e = true) (ready_remote eps).
+Proof. exact ordered_spec. Qed.
+Print Assumptions c42_ready_local_first.
+
+(* Non-vacuity: a concrete history (service with node port, external and LB IP; endpoints change; an apply in which
+   a frontend write fails; restart; shrink) runs in the model, passes through 11 states, and its last apply
+   completes with final_exactb = true. *)
+Theorem c42_example_history :
+  exists states sy d,
+    run_history (Config ex_npips false) new_syncer ([], []) ex_prefix = Some (states, sy, d) /\ length states = 11%nat
+    /\ exists sy' d', exec_apply (Config ex_npips false) sy d [(ex_s0, [ex_e2])] [(0, [])] [] []
+                        [WSetF (FK 587202561 80 6) (FV 0 1 1 0 0); WDelB (0,1)] = Some (sy', d', false)
+         /\ state_wf ex_npips [(ex_s0, [ex_e2])] && final_exactb ex_npips [(ex_s0, [ex_e2])] (fst d') (snd d') = true.
+Proof. exact example_history. Qed.
+Print Assumptions c42_example_history.
+
+(* FINDING (stale prevSvcMap).  The full "final exact" statement is false of the faithful model of the pinned code
+   (c_reset = false): w_prefix (Witness.v; the driver replays it on the real Syncer as scripted history 2) is a
+   previous Felix's sync, a restart, and two FAILED first syncs with service churn in between; the following
+   COMPLETED sync of the well-formed state w_final leaves services 0 and 1 sharing NAT id 0, and service 0's
+   frontend lists service 1's endpoint. *)
+Theorem c42_final_exact_refuted :
+  exists states sy d,
+    run_history (Config w_npips false) new_syncer ([], []) w_prefix = Some (states, sy, d) /\ length states = 5%nat
+    /\ exists sy' d', exec_apply (Config w_npips false) sy d w_final w_visit [] [] w_tr_pinned = Some (sy', d', false)
+         /\ state_wf w_npips w_final && final_exactb w_npips w_final (fst d') (snd d') = false.
+Proof. exact final_exact_refuted. Qed.
+Print Assumptions c42_final_exact_refuted.
+
+(* With prevSvcMap emptied at each startup sync (c_reset = true; fixes/C42-reset-prev-maps-on-startup-sync.patch)
+   the same history ends exact. *)
+Theorem c42_final_exact_witness_repaired :
+  exists states sy d,
+    run_history (Config w_npips true) new_syncer ([], []) w_prefix = Some (states, sy, d) /\ length states = 5%nat
+    /\ exists sy' d', exec_apply (Config w_npips true) sy d w_final w_visit [] [] w_tr_repaired = Some (sy', d', false)
+         /\ state_wf w_npips w_final && final_exactb w_npips w_final (fst d') (snd d') = true.
+Proof. exact final_exact_witness_repaired. Qed.
+Print Assumptions c42_final_exact_witness_repaired.
